@@ -222,6 +222,24 @@ theorem CodecOK_hashmap (env : Env) (hEnv : EnvWF env) (k t : Ty) (hw : wfb env 
     ∃ rest, decode env fuel (.dict k t) (Slice.ofCell b'.toCell) = .ok (v, rest) :=
   decode_encode env hEnv (.dict k t) (by simpa [wfTop, wfRefOf] using hw) fuel v hd b' he
 
+/-- **CodecOK_payloadHighload**: `wallet.PayloadHighload` (0..254 messages) is HashmapE 16 over the cells
+`mode:uint8 message:^…` with the keys 0..n-1; its round trip is `CodecOK_hashmapE` composed with the conversion of
+the message list (`hlItems_values`). The domain asks the converted dictionary to be in the domain of the
+dictionary type (keys ascending: they are 0..n-1). -/
+theorem CodecOK_payloadHighload (env : Env) (hEnv : EnvWF env) (fuel : Nat) (v : Val)
+    (hd : inDom env fuel .highload v = true) (b b' : Builder) (he : encode env fuel .highload v b = .ok b') :
+    ∃ xs rs, b' = b.app xs rs ∧
+      ∀ s : Slice, s.isLibrary = false → decode env fuel .highload (s.prepend xs rs) = .ok (v, s) := by
+  obtain ⟨xs, rs, hb, _, hng⟩ := decode_encode_inline env hEnv .highload rfl fuel v hd b b' he
+  exact ⟨xs, rs, hb, hng ⟨1, rfl⟩⟩
+
+set_option maxRecDepth 100000 in
+/-- the domain of `CodecOK_payloadHighload` is inhabited by real payloads (TEST on a literal): three messages -/
+example :
+    let m (k : Nat) : Val := Val.list [Val.some (.cell (.mk 0 0 (natToBits 9 k) [])), .int (k : Int)]
+    inDom (fun _ => none) 8 .highload (Val.list [m 3, m 130, m 255]) = true := by
+  decide
+
 /-- the key descriptors a dictionary admits: exactly those with a fixed width -/
 theorem hashmap_key_widths :
     keyWidth (.uint 32) = some 32 ∧ keyWidth (.int 32) = some 32 ∧ keyWidth (.bytes 32) = some 256 ∧
